@@ -18,6 +18,7 @@ def run(rep):
     fw.deductive(rep, UNIFY_FAMILY, ['engine_terms'], ['terms.smt2'], timeout=25 if rep.tier == 'quick' else 60)
     enginep.engine_deductive(rep, ['engine.YP.query', 'engine.YP.match_dynamic', 'engine.YP._match_all_clauses', 'engine.Answer.match'] + enginep.CTOR_API, heap_lemmas=False)
     control.parse_deductive(rep)
+    control.text_deductive(rep)
     control.program_deductive(rep)
     control.astvars_deductive(rep)
     syntactic.no_direct_cell_writes(rep)
